@@ -626,3 +626,19 @@ UNITS.append(Unit("mask.from_string.to_mask", "hexmask.c", enforce="to_mask",
                   doc="F: every hexadecimal digit, in either case, yields exactly its value; every other character is rejected (all 256 characters)"))
 META["trusted_base"] = list(META.get("trusted_base", [])) + ["specs/C16/hexmask.c vx_tolower: std::tolower in the \"C\" locale; `throw std::out_of_range(...)` -> flag + return"]
 META["not_decided"] = list(META.get("not_decided", [])) + ["the accumulation loop of from_string_impl<mask_type>::call (resize / shift / or on the bitset type) and the 0x prefix checks"]
+
+
+# ---- the ini files are merged in increasing precedence, each one that exists (added by main after seeded change C16-9 was missed) ----------
+INI_DATA_CPP = "libs/pika/runtime_configuration/src/init_ini_data.cpp"
+UNITS.append(Unit("ini.locations", "inifiles.c", enforce="ini_locations",
+                  lifts={"body": Lift(INI_DATA_CPP, r"std::string cwd = std::filesystem::current_path\(\)", fragment_end=r";(?=\s*if \(!pika_ini_file\.empty\(\)\))", rules=[
+                      Sub(r"std::string cwd = std::filesystem::current_path\(\)\.string\(\) \+ \"/\.pika\.ini\";", "", 1),
+                      Sub(r"\bhandle_ini_file\(ini, cwd\)", "handle_ini_file_loc(LOC_CWD)", None),
+                      Sub(r"\bhandle_ini_file\(ini, \"/etc/pika\.ini\"\)", "handle_ini_file_loc(LOC_ETC)", None),
+                      Sub(r"\bhandle_ini_file_env\(ini, \"PIKA_INI\"\)", "handle_ini_file_loc(LOC_PIKA_INI)", None),
+                      Sub(r"\bhandle_ini_file_env\(ini, \"HOME\", \"\.pika\.ini\"\)", "handle_ini_file_loc(LOC_HOME)", None),
+                      Sub(r"\bhandle_ini_file_env\(ini, \"PWD\", \"\.pika\.ini\"\)", "handle_ini_file_loc(LOC_PWD)", None)])},
+                  funcs=[INI_DATA_CPP + ": pika::util::init_ini_data_base (fragment: ./.pika.ini, $PIKA_INI, /etc/pika.ini, ~/.pika.ini, $PWD/.pika.ini)"],
+                  min_obligations=5,
+                  doc="T: every ini-file location is consulted exactly once, in increasing precedence, whatever the earlier locations returned"))
+META["not_decided"] = list(META.get("not_decided", [])) + ["init_ini_data_base: the master ini path loop in front of the fragment and the --pika:config file after it; the merge itself (ini.cpp)"]
